@@ -66,9 +66,9 @@ theorem fields_agree : ∀ (t : Ty), wf t = true → ∀ b, fieldsAt .hlsl t b =
   | .enum _, _, _, _ => rfl
   | .other _, h, _, _ => by simp [wf] at h
   | .struct ms, hw, b, h => by
-    simp only [wf, Bool.and_eq_true] at hw
+    simp only [wf] at hw
     simp only [fieldsAt] at h
-    obtain ⟨h1, h2⟩ := members_agree ms hw.2 b 0 0 h
+    obtain ⟨h1, h2⟩ := members_agree ms hw b 0 0 h
     simp only [agreeIn, Bool.and_eq_true, beq_iff_eq]
     exact ⟨h1, h2⟩
   | .arr t n, hw, b, h => by
